@@ -89,7 +89,11 @@ def fixed(
 
     """
 
-    gamma = LOG_HALF / average_half_life
+    if average_half_life == 0.:
+        # Documented convention: a half life of 0 means "no decay"
+        gamma = 0.
+    else:
+        gamma = LOG_HALF / average_half_life
     radiogenic_heating = mass * fixed_heat_production * np.exp(gamma * (time - ref_time))
 
     return radiogenic_heating
